@@ -48,7 +48,10 @@ pub fn c09(ctx: &Ctx, subj: &dyn DynSubject, ty: &Ty, rep: &mut Report) {
         log.classes.push(if big { "big-file".into() } else { "small-file".into() });
         let _ = b0;
         let path = ctx.tmp.join(format!("c09-{}.bin", subj.index()));
-        let write = |data: &[u8]| std::fs::write(&path, data).map_err(|e| Fail::new("harness:tmpfile", format!("cannot write temp file: {}", e)));
+        let write = |data: &[u8]| {
+            std::fs::remove_dir(&path).ok();
+            std::fs::write(&path, data).map_err(|e| Fail::new("harness:tmpfile", format!("cannot write temp file: {}", e)))
+        };
         // ---- (a) failing loads
         let mut causes: Vec<(String, Option<Vec<u8>>)> = vec![];
         let flip = |pos: usize| {
